@@ -133,10 +133,14 @@ namespace sim
 		const int packet_size = int(p.buffer.size() + p.overhead);
 		m_queue_size -= packet_size;
 
-		forward_packet(std::move(p));
-
+		// start on the next packet before handing this one on: forwarding may
+		// synchronously bring another packet into this very queue (e.g. the
+		// ACK for it, when nothing else is in between), and it must not be
+		// scheduled twice
 		if (m_queue.size())
 			begin_send_next_packet();
+
+		forward_packet(std::move(p));
 	}
 }
 
